@@ -7,6 +7,7 @@ import re
 
 V = os.path.dirname(os.path.dirname(os.path.abspath(__file__)))
 rows = []
+caught_flags = []
 for d in sorted(glob.glob(os.path.join(V, "seeded", "C*-*"))):
     sid = os.path.basename(d)
     meta = json.load(open(os.path.join(d, "meta.json"))) if os.path.exists(os.path.join(d, "meta.json")) else {}
@@ -24,9 +25,12 @@ for d in sorted(glob.glob(os.path.join(V, "seeded", "C*-*"))):
         else:
             det.append("%s %s: not detected" % (j["check"], j["tier"]))
     needs = (meta.get("needs_to_manifest") or "")[:160].replace("|", "/")
-    rows.append("| %s | %s | %s | %s |" % (sid, title.replace("|", "/")[:110], needs, "; ".join(det) or "not run"))
+    if meta.get("status_on_repaired_tree"):
+        det.append("(" + meta["status_on_repaired_tree"].split(":")[0] + " on the repaired tree, see meta.json)")
+    caught_flags.append(any(d.startswith("**") for d in det))
+    rows.append("| %s | %s | %s | %s |" % (sid, title.replace("|", "/").replace("**", "")[:110], needs.replace("**", ""), "; ".join(det) or "not run"))
 table = "\n".join(["| seed | change | needs, to manifest | caught by (check, tier: first violation key) |", "|---|---|---|---|"] + rows)
-caught = sum(1 for r in rows if "**" in r)
+caught = sum(1 for f in caught_flags if f)
 text = ("%d changes were produced in two rounds by fresh sub-agents" % len(rows) + " that saw only a property's text and a scratch worktree of /repo; each was\n"
         "confirmed by the main session (`tools/confirm_seed.sh`: demo exits 0 without and non-zero with the change; the full test suite\n"
         "still passes with it) and is kept under `seeded/<id>/` (patch.diff, demo.py, notes.md, meta.json, confirm.json,\n"
